@@ -27,6 +27,7 @@ META = {
                     "within 0.02 rad, default iteration budget; a failure that flips under a 1e-12 shift of the start is counted "
                     "as ill-conditioned, not asserted"],
 }
+REQUIRED_CLASSES = ["goal:held_pose", "state_outside_limits_before_solve"]
 REQUIRED_CLAUSES = ["success.orientation", "success.position", "success.in_limits", "success.state", "unreachable", "failure.coherent",
                     "local_convergence"]
 
@@ -45,7 +46,19 @@ def gen_case(rng):
     if rng.random() < 0.5:
         for _ in range(int(rng.integers(1, 4))):
             nxt = gen_solve_case(rng, first["arm"], first["base"])
-            solves.append({k: nxt[k] for k in SOLVE_KEYS})
+            sv = {k: nxt[k] for k in SOLVE_KEYS}
+            if rng.random() < 0.35:
+                # servo-loop pattern: ask for the pose the arm holds right now (whatever left it there), possibly after the state
+                # was put outside the limits through the public unclamped FK
+                sv["goal_kind"] = "held"
+                if sv["path"] == "IKFree":
+                    sv["path"] = "IK"
+                if rng.random() < 0.6:
+                    t = rng.uniform(model.lo, model.hi)
+                    for k in rng.choice(model.n, int(rng.integers(1, model.n + 1)), replace=False):
+                        t[k] = (model.hi[k] + rng.uniform(0.05, 1.5)) if rng.random() < 0.5 else (model.lo[k] - rng.uniform(0.05, 1.5))
+                    sv["pre_fk"] = t.tolist()
+            solves.append(sv)
     out = {"arm": first["arm"], "base": first["base"], "prefix": first["prefix"], "solves": solves}
     return out
 
@@ -162,6 +175,12 @@ def run_solve(session, case, si, ctx, bm, arm, model, reach):
     model.S = Sg
     model.M = Mg
     goal = model.pose(gth)
+    if case.get("pre_fk") is not None:
+        arm.FK(np.array(case["pre_fk"], dtype=float), protect=True)
+        ctx.cls("state_outside_limits_before_solve")
+    if case["goal_kind"] == "held":
+        goal = np.array(arm.getEEPos().gTM(), dtype=float)
+        ctx.cls("goal:held_pose")
     case = dict(case)
     case["_session"] = {"arm": session["arm"], "base": session["base"], "prefix": session["prefix"], "solves": session["solves"], "failing_solve": si}
     beyond = case["goal_kind"] == "beyond"
@@ -253,7 +272,7 @@ def run_solve(session, case, si, ctx, bm, arm, model, reach):
         coherent("failure.coherent", "state_incoherent/failure/" + key_path + (":restarts" if case["check"] else ":norestarts"))
 
     # local convergence
-    if (not beyond and case["start_kind"] == "near" and path != "IKFree" and t0 is not None
+    if (not beyond and case["goal_kind"] != "held" and case["start_kind"] == "near" and path != "IKFree" and t0 is not None
             and np.all(gth >= model.lo + 0.15) and np.all(gth <= model.hi - 0.15)
             and float(np.max(np.abs(t0 - gth))) <= 0.02 + 1e-12):
         sv = np.linalg.svd(model.jac_space(gth), compute_uv=False)
